@@ -32,3 +32,8 @@ CLAIMS["C02"] = {
     "note": "One global cell per process, so the real-global leg has one trial per process; the cell legs use the cfg-exported RecorderOnceCell type, which is the type of the global.",
     "technique": "runtime monitoring: gated/random hook schedules on fresh once-cells, write-once-register history oracle, canary + drop accounting; Miri data-race detection",
 }
+CLAIMS["C20"] = {
+    "text": "Exploration with a forced window: an emitter is held immediately after its weak-to-strong upgrade while into_inner (or the handle drop) runs, plus thousands of randomly held and free-running trials; a recorder double stamps every entry/exit, lingers inside, and records finalisation, so 'into_inner returned while a call was inside', 'a call entered after finalisation began', lost live emissions, deliveries after recovery, live handles after recovery and the drop count are decided on the recorded history. The real install() is exercised one process per trial on both the success and the already-installed path. Miri re-runs small trials with the leak checker on.",
+    "note": "Liveness of into_inner is only checked as bounded progress where no emission is in flight (failure path of install). One history class is a listed known finding (deliveries after drop(handle) while another emission is in flight).",
+    "technique": "runtime monitoring: enter/exit-stamping recorder double + gated upgrade window; offline check of recovery vs emission intervals; process-per-trial for the global install; Miri",
+}
